@@ -58,6 +58,9 @@ struct FVis {
 		op("view-assign"); { multi::array<int, D, Alloc<int>> E(v.extensions(), 5); E() = v; multi::array<int, D, Alloc<int>> F = E; F.elements()[0] = 9; swap(E, F); mix(std::uint64_t(E.elements()[0])); E = F.rotated(); F = std::move(E); mix(std::uint64_t(std::accumulate(F.elements().begin(), F.elements().end(), 0L))); mix(std::uint64_t(E.num_elements())); E.clear(); F = E; mix(std::uint64_t(F.num_elements()));
 			// arrays that had a block and lost it (clear(), moved-from by assignment) are sized again
 			E.reextent(v.extensions(), 3); mix(std::uint64_t(E.elements()[0])); multi::array<int, D, Alloc<int>> G2(v.extensions(), 8); F = std::move(G2); G2.reextent(v.extensions(), 4); mix(std::uint64_t(G2.num_elements())); G2.clear(); G2.reextent(v.extensions()); mix(std::uint64_t(G2.num_elements())); G2.clear(); G2 = v; mix(std::uint64_t(G2.elements()[0])); }
+		// assign(first, last) / assign(range) into arrays that own nothing (default-constructed, cleared): nothing of the old (null or released) storage may be dereferenced
+		op("assign(first,last)-into-empty"); { multi::array<int, D, Alloc<int>> Z0; Z0.assign(C.begin(), C.end()); mix(std::uint64_t(Z0 == C)); multi::array<int, D, Alloc<int>> Z1(C); Z1.clear(); Z1.assign(C.begin(), C.end()); mix(std::uint64_t(Z1.num_elements()));
+			Z1.clear(); Z1.assign(C.begin(), C.end()); for(int e : Z1.elements()) mix(std::uint64_t(e)); multi::array<int, D, Alloc<int>> Z2; Z2.assign(v.begin(), v.end()); mix(std::uint64_t(Z2 == v)); Z2.assign(C.begin(), C.end()); mix(std::uint64_t(Z2 == C)); count("op:assign-into-empty"); }
 		// non-trivially destructible elements, including arrays that are (or become) empty
 		op("owning<string>");
 		{ using SA = multi::array<std::string, D, Alloc<std::string>>; SA S(v.extensions()); { L q = 0; for(auto& e : S.elements()) e = std::string(18, 'x') + std::to_string(q++); } SA S2(S); SA S3(S.rotated()); for(auto const& e : S3.elements()) mixs(e);
